@@ -5,7 +5,8 @@ package harness
 // Suite C06: one generated block history executed on four instances of the real application
 // (A plain, B re-created from its database at every block boundary, C with read-only requests
 // interleaved, D a second quiet node run afterwards in a fresh application), compared at every height;
-// replica A's projection is compared with the node model of coq/Model/Chain.v.
+// the projection (read on C, so that A and D see nothing but blocks) is compared with the node model
+// of coq/Model/Chain.v.
 
 import (
 	"fmt"
@@ -202,11 +203,11 @@ type c06Run1 struct {
 	intern  c06Intern
 	sig     strings.Builder
 	ticks   int
-	postCtx sdk.Context // replica A after the block (for the term builders)
+	postCtx sdk.Context // the observed replica after the block (for the term builders)
 }
 
 func (r *c06Run1) account(ctx sdk.Context, addr sdk.AccAddress) (uint64, uint64) {
-	acc := r.A.app.AccountKeeper.GetAccount(ctx, addr)
+	acc := r.C.app.AccountKeeper.GetAccount(ctx, addr)
 	if acc == nil {
 		return 0, 0
 	}
@@ -219,7 +220,7 @@ func (r *c06Run1) account(ctx sdk.Context, addr sdk.AccAddress) (uint64, uint64)
 
 func (r *c06Run1) bump(addr sdk.AccAddress, seq uint64) { r.seqs[addr.String()] = seq + 1 }
 
-// build turns a transaction description into bytes (signed with the sequence numbers of replica A's
+// build turns a transaction description into bytes (signed with the sequence numbers of the committed
 // state) and the model's transaction term builder (which needs the result)
 type c06Built struct {
 	bz     []byte
@@ -229,7 +230,7 @@ type c06Built struct {
 }
 
 func (r *c06Run1) build(ctx sdk.Context, t *c06Tx, blockTime time.Time) c06Built {
-	a := r.A.app
+	a := r.C.app
 	k := r.keys
 	w := r.w
 	user := k.users[t.User%len(k.users)]
@@ -473,7 +474,7 @@ func c06LogTerm(w *c06World, lg *evmtypes.Log) string {
 	return App("Csr.mkLog", c06AddrZ(emitter), payload)
 }
 
-// ---- generation of one transaction description against replica A's current state ----
+// ---- generation of one transaction description against the current committed state (read on replica C) ----
 func (r *c06Run1) genTx(dry sdk.Context, blockTime time.Time) c06Tx {
 	e := r.e
 	w := r.w
@@ -512,7 +513,7 @@ func (r *c06Run1) genTx(dry sdk.Context, blockTime time.Time) c06Tx {
 		var op csOp
 		wantValid := e.Chance(0.75)
 		for attempt := 0; attempt < 8; attempt++ {
-			op = e.csGenOp(w.cs, obs, now, "C06")
+			op = c06SafeGenOp(e, w.cs, obs, now)
 			if op.Kind == "autoswap" || op.Kind == "setparams" || op.Kind == "invalid" {
 				attempt--
 				continue
@@ -555,6 +556,16 @@ func (r *c06Run1) genTx(dry sdk.Context, blockTime time.Time) c06Tx {
 		}
 	}
 	return t
+}
+
+// the shared coinswap generator assumes at most csMaxPool pools; on a tree where that breaks, fall back to a transfer
+func c06SafeGenOp(e *Env, w *csWorld, obs csObs, now *big.Int) (op csOp) {
+	defer func() {
+		if rec := recover(); rec != nil {
+			op = csOp{Kind: "donate", NowNs: now.String(), Sender: 0, Rec: "U1", Din: "S", A: []string{"1"}}
+		}
+	}()
+	return e.csGenOp(w, obs, now, "C06")
 }
 
 // amounts that sdkmath.Int cannot even represent cannot be put into a message
@@ -625,9 +636,9 @@ func c06RunCase(e *Env, c int, kase *c06Case, replay bool) {
 		probe := c06CsWorld(nil, keys)
 		kase.Gen = c06GenGenesis(e, probe)
 	}
-	A, w := c06Start("A", keys, kase.Gen)
+	A, _ := c06Start("A", keys, kase.Gen)
 	RB, _ := c06Start("B", keys, kase.Gen)
-	C, _ := c06Start("C", keys, kase.Gen)
+	C, w := c06Start("C", keys, kase.Gen) // the naming tables are bound to the replica that is read: C
 	r := &c06Run1{e: e, c: c, w: w, A: A, B: RB, C: C, keys: keys, voted: map[uint64]bool{}}
 	// block 1: empty, a few seconds after genesis (commits the prepared state everywhere)
 	r.now = GenesisTime.Add(5 * time.Second)
@@ -642,7 +653,7 @@ func c06RunCase(e *Env, c int, kase *c06Case, replay bool) {
 		e.Stats.ImplFailures = append(e.Stats.ImplFailures, ImplFailure{Case: c, Step: -1, Monitor: "apphash-differs-between-replicas", Detail: "after the first (empty) block"})
 	}
 	RB.restart()
-	r.obs = c06Observe(A.app, A.readCtx(r.now, w), w)
+	r.obs = c06Observe(C.app, C.readCtx(r.now, w), w)
 	initTerm := c06ObsTerm(w, r.obs)
 	t0 := r.now
 	rank := c06EpochRank(r.obs.epochs)
@@ -664,7 +675,7 @@ func c06RunCase(e *Env, c int, kase *c06Case, replay bool) {
 		prev := r.now
 		r.now = r.now.Add(time.Duration(bigOf(blk.DtNs).Int64()))
 		r.seqs = map[string]uint64{}
-		ctx := A.readCtx(prev, w).WithBlockTime(r.now)
+		ctx := C.readCtx(prev, w).WithBlockTime(r.now)
 		nTx := 0
 		if !replay {
 			nTx = []int{0, 0, 1, 1, 1, 2, 2, 3, 4, 6}[e.Pick(10)]
@@ -694,7 +705,7 @@ func c06RunCase(e *Env, c int, kase *c06Case, replay bool) {
 		// replica C: reads between the blocks
 		c06Reads(C, w, rand.New(rand.NewSource(blk.ReadSeed)), txs, req, e.Stats)
 		pre := r.obs
-		statusBefore := c06ProposalsByStatus(A.app, A.readCtx(prev, w))
+		statusBefore := c06ProposalsByStatus(C.app, C.readCtx(prev, w))
 		resA := A.block(req)
 		resB := RB.block(req)
 		resC := C.block(req)
@@ -711,8 +722,8 @@ func c06RunCase(e *Env, c int, kase *c06Case, replay bool) {
 			rec.exports = []string{A.exportHash(), RB.exportHash(), C.exportHash()}
 			e.Stats.Count("export-compared")
 		}
-		r.postCtx = A.readCtx(r.now, w)
-		r.obs = c06Observe(A.app, r.postCtx, w)
+		r.postCtx = C.readCtx(r.now, w)
+		r.obs = c06Observe(C.app, r.postCtx, w)
 		// model terms of the transactions (need the results) and the result classes
 		var txTerms []string
 		for i, b := range built {
@@ -730,7 +741,7 @@ func c06RunCase(e *Env, c int, kase *c06Case, replay bool) {
 			}
 		}
 		// proposals decided in this block's EndBlocker (passed or failed at execution), in queue order
-		statusAfter := c06ProposalsByStatus(A.app, A.readCtx(r.now, w))
+		statusAfter := c06ProposalsByStatus(C.app, r.postCtx)
 		var govTerms []string
 		var still []c06Pending
 		sort.Slice(r.pending, func(i, j int) bool { return r.pending[i].id < r.pending[j].id })
@@ -826,12 +837,12 @@ func c06RunCase(e *Env, c int, kase *c06Case, replay bool) {
 
 func c06Run(e *Env) {
 	e.Header("From Coq Require Import ZArith List Bool.\nFrom Canto Require Import Model.Epochs Model.Coinswap Model.Chain Check.Common Check.CoinswapCheck Check.ChainCheck.\nFrom Canto Require Model.Inflation Model.Csr Model.Authority.\nImport ListNotations.\nOpen Scope Z_scope.\n")
-	e.Stats.Rule = "case = generated genesis (coinswap params, user funds, inflation on/off, epochs per period 1..30, staking/community split, optional hour epoch, csr share) on a chain with a genuine bonded genesis validator + a history of 14..28 blocks (quick) whose times step by seconds / hours / exactly-at, 1ns before, 1ns after an epoch end / days / weeks, each with 0..6 signed transactions: coinswap swaps and liquidity, bank sends, ConvertCoin/ConvertERC20, Ethereum transactions (ERC20 transfer to the erc20 module = erc20 hook, contract creation that registers with the Turnstile, calls of registered contracts = csr fee split, register through the CSR test contract), governance proposals (submit, vote, execution in EndBlocker) updating coinswap/inflation/csr/erc20 params, user-signed MsgUpdateParams, wrong-sequence and garbage bytes; the SAME bytes are executed through FinalizeBlock+Commit on replica A (plain), B (NewCanto on the same DB + LoadLatestVersion after every block), C (gRPC queries of every Canto module incl. historical heights and proofs, eth_call/estimateGas, CheckTx new/recheck of valid, corrupted and garbage transactions, Simulate, Prepare/ProcessProposal before every block) and D (fresh application afterwards); AppHash, result (code, codespace, data, gas) and exported genesis compared at every height; replica A's projection compared with the node model; non-trivial = at least one accepted transaction or epoch tick; distinct by hash of accepted kinds and ticks"
+	e.Stats.Rule = "case = generated genesis (coinswap params, user funds, inflation on/off, epochs per period 1..30, staking/community split, optional hour epoch, csr share) on a chain with a genuine bonded genesis validator + a history of 14..28 blocks (quick) whose times step by seconds / hours / exactly-at, 1ns before, 1ns after an epoch end / days / weeks, each with 0..6 signed transactions: coinswap swaps and liquidity, bank sends, ConvertCoin/ConvertERC20, Ethereum transactions (ERC20 transfer to the erc20 module = erc20 hook, contract creation that registers with the Turnstile, calls of registered contracts = csr fee split, register through the CSR test contract), governance proposals (submit, vote, execution in EndBlocker) updating coinswap/inflation/csr/erc20 params, user-signed MsgUpdateParams, wrong-sequence and garbage bytes; the SAME bytes are executed through FinalizeBlock+Commit on replica A (plain), B (NewCanto on the same DB + LoadLatestVersion after every block), C (gRPC queries of every Canto module incl. historical heights and proofs, eth_call/estimateGas, CheckTx new/recheck of valid, corrupted and garbage transactions, Simulate, Prepare/ProcessProposal before every block) and D (fresh application afterwards); AppHash, result (code, codespace, data, gas) and exported genesis compared at every height; the projection (read on C; A and D see nothing but blocks) compared with the node model; non-trivial = at least one accepted transaction or epoch tick; distinct by hash of accepted kinds and ticks"
 	e.ShardSize = 1
 	if e.Replay == nil {
 		c06StaticScan(e)
 	}
-	nCases := e.Scale(6, 60)
+	nCases := e.Scale(8, 80)
 	if e.Tier == "search" {
 		nCases = 12
 	}
